@@ -14,7 +14,7 @@ SCRATCH_CACHE=/tmp/verif-scratch-gocache
 WT=/tmp/bt.$$
 git -C /repo worktree add -q --detach $WT HEAD || exit 2
 OUT=/tmp/benignout.$$; mkdir -p $OUT
-cleanup() { git -C /repo worktree remove --force $WT 2>/dev/null; rm -rf $OUT /tmp/benignrun.$$; }
+cleanup() { git -C /repo worktree remove --force $WT 2>/dev/null; git -C /repo worktree remove --force $WT.base 2>/dev/null; rm -rf $OUT /tmp/benignrun.$$ /tmp/benignbase.$$; }
 trap cleanup EXIT
 if ! git -C $WT apply $DIFF 2>/dev/null; then
   BASE=$(python3 -c "import json; print(json.load(open('$(dirname $DIFF)/meta.json')).get('base_commit',''))" 2>/dev/null)
@@ -35,4 +35,15 @@ for id in $IDS; do
   cd "$HOME_DIR" && VERIF_REPO=$WT/v4 VERIF_OUT=$OUT timeout 1800 ./run.sh $id ${TIER:-quick} > /tmp/benignrun.$$ 2>&1; rc=$?
   echo "== $id exit=$rc $(grep -c '^VIOLATION' /tmp/benignrun.$$) violations | $(tail -1 /tmp/benignrun.$$ | cut -c1-200)"
   if [ $rc -ne 0 ]; then grep -B1 -A3 "signature:" /tmp/benignrun.$$ | cut -c1-300 | head -40; grep -v "^VIOLATION\|signature" /tmp/benignrun.$$ | tail -5 | cut -c1-300; fi
+  if [ $rc -ne 0 ] && [ -n "${OK:-}" ]; then
+    # the change was applied to an older commit: the same check on that commit WITHOUT the change tells
+    # whether the violations belong to the old base (defects repaired since) or to the change
+    [ -d $WT.base ] || git -C /repo worktree add -q --detach $WT.base $OK
+    VERIF_REPO=$WT.base/v4 VERIF_OUT=$OUT timeout 1800 ./run.sh $id ${TIER:-quick} > /tmp/benignbase.$$ 2>&1
+    if [ "$(grep 'signature:' /tmp/benignrun.$$ | sed 's/ ([0-9]* cases)//' | sort)" = "$(grep 'signature:' /tmp/benignbase.$$ | sed 's/ ([0-9]* cases)//' | sort)" ]; then
+      echo "   $id: the same signatures on commit $OK without the change: they belong to the old base, not to the change"
+    else
+      echo "   $id: signatures DIFFER from those of commit $OK without the change"
+    fi
+  fi
 done
